@@ -25,6 +25,7 @@ GOOD_OUT = (0, 0, 0, 0, 2, 5, 6)                   # what a "good" request does
 OVERLAY = {
     "core/breaker/verif_c01_test.go": os.path.join(vlib.HARNESS, "overlay/breaker/verif_c01_test.go"),
     "core/breaker/verif_c01_conc_test.go": os.path.join(vlib.HARNESS, "overlay/breaker/verif_c01_conc_test.go"),
+    "core/breaker/verif_c01_multi_test.go": os.path.join(vlib.HARNESS, "overlay/breaker/verif_c01_multi_test.go"),
     "core/mathx/proba_verif.go": os.path.join(vlib.HARNESS, "overlay/mathx/proba_verif.go"),
     "core/timex/relativetime.go": os.path.join(vlib.HARNESS, "overlay/timex/relativetime.go"),
 }
@@ -307,6 +308,7 @@ class C01(Property):
         calls += [call(2, 0, 1, gap=0, m=thr - 4096), call(2, 0, 1, gap=0, m=(94 * TWO53) // 100)]
         cs.append({"base": B, "calls": calls})
         cs += self._wrapper_corpus()
+        cs += self._multi_corpus()
         # minimised past failures
         d = os.path.join(vlib.ROOT, "corpus", "C01")
         if os.path.isdir(d):
@@ -409,6 +411,98 @@ class C01(Property):
             sched.append([rng.choice([len(calls), len(calls) + 3, 0]), 5])   # no-op actions
         return {"base": 10 ** 15 + rng.randrange(IV), "calls": calls, "conc": {"sched": sched}}
 
+    # ---- several breakers, the registry, nested calls
+    @staticmethod
+    def _nodes(n):
+        out = []
+        while n:
+            out.append(n)
+            n = n.get("in")
+        return out
+
+    def _mnode(self, insts, chain, rng, pfail, tempo, force=None):
+        """a call tree over the instances of `chain` (outermost first)"""
+        node = None
+        for depth, i in reversed(list(enumerate(chain))):
+            bad = rng.random() < pfail[i]
+            e = rng.choice([0, 1, 2, 2, 3, 3, 5 if bad else 4])
+            o = rng.choice(BAD_OUT) if bad else rng.choice(GOOD_OUT)
+            c = rng.choices([0, 1, 2], weights=(6, 3, 1))[0]
+            via = rng.choice([0, 1]) if insts[i] == 1 else 0
+            dur = 0 if rng.random() < 0.7 else rng.randrange(0, IV)
+            gap = self._gap(rng, tempo) if depth == 0 else rng.choice([0, 0, 1, 1000, rng.randrange(0, IV)])
+            n = {"c": [i, via, e, c, o, gap, dur, self._draw(rng), rng.choice([0, 1])]}
+            if node is not None:
+                n["in"] = node
+            node = n
+        return node
+
+    def _multi(self, rng):
+        ninst = rng.randint(2, 4)
+        insts = [rng.choice([0, 1, 1]) for _ in range(ninst)]
+        # the last instance plays the downstream that is down
+        pfail = [rng.choice([0.05, 0.3, 0.6]) for _ in range(ninst)]
+        pfail[-1] = rng.choice([0.9, 1.0])
+        tempo = rng.choice(["dense", "dense", "medium"])
+        ops = []
+        # warm the downstream up: failures let through (large draws) so that it opens
+        for _ in range(rng.choice([0, 8, 15, 30])):
+            ops.append({"call": {"c": [ninst - 1, rng.choice([0, 1]) if insts[-1] == 1 else 0, rng.choice([0, 1, 2, 3]), 0, 1,
+                                       rng.choice([0, 1000, MS]), 0, TWO53 - 1, 0]}})
+        for _ in range(rng.randint(8, 70)):
+            r = rng.random()
+            if r < 0.03 and 1 in insts:
+                ops.append({"nop": [rng.choice([i for i, k in enumerate(insts) if k == 1]), rng.choice([0, 1, MS])]})
+                continue
+            depth = rng.choices([1, 2, 3], weights=(5, 4, 1))[0]
+            depth = min(depth, ninst)
+            if depth == 1:
+                chain = [rng.randrange(ninst)]
+            else:
+                # towards the downstream: the inner breaker is the one that is (more) open
+                chain = sorted(rng.sample(range(ninst), depth))
+                if rng.random() < 0.2:
+                    chain.reverse()
+            ops.append({"call": self._mnode(insts, chain, rng, pfail, tempo)})
+        # has any state leaked into a breaker that was not called?  one done-context call each
+        for i in range(ninst):
+            ops.append({"call": {"c": [i, 0, rng.choice([0, 1, 2, 3, 4]), 2, 0, 0, 0, 0, 0]}})
+        return {"base": 10 ** 15 + rng.randrange(IV), "insts": insts, "mops": ops}
+
+    def _multi_corpus(self):
+        cs = []
+        B = 10 ** 15 + 4242
+        big = TWO53 - 1
+        leaf = lambda i, e, o, gap=MS, m=big, via=0, c=0: {"c": [i, via, e, c, o, gap, 0, m, 0]}
+        # (a) nested breakers: the downstream (1) is open and rejects; the outer breaker (0) admits, its request
+        # returns the inner ErrServiceUnavailable (bare / %w-wrapped): every Do* entry point, method and
+        # package-level helper, with and without a live context
+        for insts in ([0, 0], [1, 1]):
+            ops = [{"call": leaf(1, 0, 1, via=insts[1])} for _ in range(20)]
+            for e in range(4):
+                for c in (0, 1):
+                    for wrap in (0, 1):
+                        for ie in (0, 2):
+                            ops.append({"call": {"c": [0, insts[0], e, c, 0, MS, MS, big, wrap],
+                                                 "in": {"c": [1, insts[1], ie, 0, 1, 1000, 0, 0, 0]}}})
+            ops += [{"call": leaf(i, 0, 0, gap=0, c=2)} for i in range(2)]
+            cs.append({"base": B, "insts": insts, "mops": ops})
+        # (b) the registry: two names do not share a window, one name does; NoBreakerFor switches one off
+        ops = []
+        for j in range(14):
+            ops.append({"call": leaf(0, j % 4, 1, m=0, via=j % 2, c=j % 2)})
+        for j in range(8):
+            ops.append({"call": leaf(1, j % 4, 1, m=0, via=(j + 1) % 2)})
+        ops.append({"nop": [0, 5]})
+        for j in range(8):
+            ops.append({"call": leaf(0, j % 6, [1, 3, 4, 8][j % 4], m=0, via=j % 2, c=j % 3)})
+        for j in range(6):
+            ops.append({"call": leaf(1, j % 4, 1, m=0, via=j % 2)})
+        ops.append({"call": {"c": [2, 0, 2, 0, 0, MS, 0, 0, 1], "in": {"c": [1, 1, 0, 0, 1, 0, 0, 0, 0],}}})
+        ops += [{"call": leaf(i, 0, 0, gap=0, c=2)} for i in range(3)]
+        cs.append({"base": B + 1, "insts": [1, 1, 0], "mops": ops})
+        return cs
+
     def _wrapper_case(self, rng):
         w = rng.choice(["grpcc", "grpcs", "redis", "sql", "rest", "rest"])
         if w == "rest":
@@ -469,6 +563,9 @@ class C01(Property):
                 continue
             if rng.random() < 0.15:
                 cases.append(self._conc(rng))
+                continue
+            if rng.random() < 0.12:
+                cases.append(self._multi(rng))
                 continue
             if rng.random() < (0.3 if tier == "search" else 0.05):
                 cases.append(self._stale_success(rng))
@@ -569,18 +666,35 @@ class C01(Property):
         out = {0: "(HCode %s)" % cz(q[1] or 200), 1: "(HPanic None)", 2: "(HPanic (Some %s))" % cz(q[1])}[q[0]]
         return "mkHReq %s %s %s (mkU %d)" % (out, cz(q[2]), cz(q[3]), q[4])
 
+    def _ncall(self, n):
+        k = n["c"]
+        c = "(mkCall %s %s %s %s %s (mkU %d))" % (ENTRY[k[2]], CTX[k[3]], OUT[k[4]], cz(k[5]), cz(k[6]), k[7])
+        if n.get("in"):
+            return "(NNest %d%%nat %s %s %s)" % (k[0], c, cbool(k[8] == 1), self._ncall(n["in"]))
+        return "(NLeaf %d%%nat %s)" % (k[0], c)
+
+    def _mop(self, op):
+        if op.get("call"):
+            return "MCall %s" % self._ncall(op["call"])
+        return "MNoBreaker %d%%nat %s" % (op["nop"][0], cz(op["nop"][1]))
+
     def coq_case(self, case, obs):
+        if case.get("insts"):
+            named = clist([cbool(k == 1) for k in case["insts"]])
+            ops = clist([self._mop(op) for op in case["mops"]])
+            rows = clist(["Some (%s)" % self._obs(r[1:17]) if r[0] == 1 else "None" for r in obs["obs"]])
+            return "mkCase %s [] [] [] [] [] [] [] [] [] %s %s %s" % (cz(case["base"]), named, ops, rows)
         if case.get("w") == "rest":
             rs = clist([self._hreq(q) for q in case["reqs"]])
             ro = clist(["mkRO %s (%s %s)" % (cz(o[0]), "RSCode" if o[1] == 0 else "RSPanic" if o[1] == 1 else "RSCode (-1) ; RSPanic", cz(o[2]))
                         if o[1] in (0, 1) else "mkRO %s (RSPanic (-1))" % cz(o[0]) for o in obs["obs"]])
-            return "mkCase %s [] [] [] [] [] [] [] %s %s" % (cz(case["base"]), rs, ro)
+            return "mkCase %s [] [] [] [] [] [] [] %s %s [] [] []" % (cz(case["base"]), rs, ro)
         if case.get("w"):
             wc = clist(["mkWC %s %s %s %s" % (WK[k[0]], cbool(k[1] == 1), cbool(k[2] == 1), self._derr(k[3], k[4]))
                         for k in case["wcalls"]])
             wo = clist(["mkWO %s %s %s %s %s" % (cz(o[0]), cz(o[1]), cz(o[2]), cz(o[3]), self._seen(o[4], o[5]))
                         for o in obs["obs"]])
-            return "mkCase 0 [] [] [] [] [] %s %s [] []" % (wc, wo)
+            return "mkCase 0 [] [] [] [] [] %s %s [] [] [] [] []" % (wc, wo)
         calls = clist([self._call(k) for k in case["calls"]])
         if case.get("conc"):
             sched = case["conc"]["sched"]
@@ -590,8 +704,8 @@ class C01(Property):
             so = clist(["mkS " + " ".join(cz(x) for x in r) for r in srows])
             to = clist(["mkT %s %s %s %s %s" % (cz(r[0]), RES[r[1]] if 0 <= r[1] < len(RES) else "ROther",
                                                cz(r[2]), cz(r[3]), cbool(r[4] == 1)) for r in trows])
-            return "mkCase %s %s [] %s %s %s [] [] [] []" % (cz(case["base"]), calls, sc, so, to)
-        return "mkCase %s %s %s [] [] [] [] [] [] []" % (cz(case["base"]), calls, clist([self._obs(o) for o in obs["obs"]]))
+            return "mkCase %s %s [] %s %s %s [] [] [] [] [] [] []" % (cz(case["base"]), calls, sc, so, to)
+        return "mkCase %s %s %s [] [] [] [] [] [] [] [] [] []" % (cz(case["base"]), calls, clist([self._obs(o) for o in obs["obs"]]))
 
     # ---- statistics
     def _near_ties(self, case, obs):
@@ -619,7 +733,20 @@ class C01(Property):
         n = len(case["conc"]["sched"])
         return obs["obs"][:n], obs["obs"][n:]
 
+    def _mrows(self, case, obs):
+        """(node, row) pairs in pre-order"""
+        nodes = []
+        for op in case["mops"]:
+            if op.get("call"):
+                nodes += self._nodes(op["call"])
+        return list(zip(nodes, obs["obs"]))
+
     def nontrivial(self, case, obs):
+        if case.get("insts"):
+            pr = self._mrows(case, obs)
+            used = set(n["c"][0] for n, r in pr if r[0] == 1)
+            rej = any(r[0] == 1 and r[1] in (1, 5) and r[2] == 0 and n["c"][2] < 4 for n, r in pr)
+            return len(used) >= 2 and rej
         if case.get("w") == "rest":
             return any(o[0] == 0 for o in obs["obs"]) and any(q[1] >= 500 for q in case["reqs"])
         if case.get("w"):
@@ -641,6 +768,26 @@ class C01(Property):
         return rej and thr and len(set(k[0] for k in case["calls"])) >= 3
 
     def features(self, case, obs):
+        if case.get("insts"):
+            pr = self._mrows(case, obs)
+            fs = ["multi", "multi_breakers=%d" % len(case["insts"])]
+            if 1 in case["insts"]:
+                fs.append("multi_registry_name")
+            if any(op.get("nop") for op in case["mops"]):
+                fs.append("multi_NoBreakerFor")
+            if any(n["c"][1] == 1 and r[0] == 1 for n, r in pr):
+                fs.append("multi_package_level_helper")
+            for (n, r), (n2, r2) in zip(pr, pr[1:]):
+                if n.get("in") is n2 and r[0] == 1 and r2[0] == 1:
+                    fs.append("multi_nested_call")
+                    if r2[2] == 0 and r2[1] in (1, 5) and r[2] == 1:
+                        fs.append("multi_inner_rejected_outer_admitted")
+                        if n["c"][2] in (2, 3):
+                            fs.append("multi_inner_rejected_outer_has_fallback")
+            for n, r in pr:
+                if r[0] == 1 and r[2] == 1 and r[1] in (1, 5, 6, 8, 9, 10):
+                    fs.append("admitted_request_returned_sentinel")
+            return fs
         if case.get("w") == "rest":
             fs = ["wrap_rest"]
             if any(o[0] == 0 for o in obs["obs"]):
@@ -672,6 +819,9 @@ class C01(Property):
             fs.append("out_" + OUT[o])
         for r in sorted(set(o[0] for o in obs["obs"])):
             fs.append("res_" + (RES[r] if r < len(RES) else "other"))
+        for k, o in zip(case["calls"], obs["obs"]):
+            if k[0] < 4 and o[1] == 1 and o[0] in (1, 5, 6, 8, 9, 10):
+                fs.append("admitted_request_returned_sentinel")
         nrej = sum(1 for o in obs["obs"] if o[0] in (1, 5))
         fs.append("rejections=%s" % ("0" if nrej == 0 else "1-9" if nrej < 10 else "10-99" if nrej < 100 else "100+"))
         if any(o[4] == 1 and o[0] not in (1, 5) for o in obs["obs"]):
@@ -693,6 +843,21 @@ class C01(Property):
         return fs
 
     def shrink_candidates(self, case):
+        if case.get("insts"):
+            ops = case["mops"]
+            res = []
+            n = len(ops)
+            chunk = max(1, n // 2)
+            while chunk >= 1 and n > 1:
+                for i in range(0, n, chunk):
+                    c = dict(case)
+                    c["mops"] = ops[:i] + ops[i + chunk:]
+                    if c["mops"]:
+                        res.append(c)
+                if chunk == 1:
+                    break
+                chunk //= 2
+            return res[:200]
         if case.get("w"):
             key = "reqs" if case["w"] == "rest" else "wcalls"
             items = case[key]
@@ -746,6 +911,10 @@ class C01(Property):
         return res[:240]
 
     def describe_failure(self, case, obs):
+        if case.get("insts"):
+            return ("with several breakers (registry names / nested calls): a call was mis-accounted (request or fallback run "
+                    "count, the returned error is not what the request returned, window sums of the call's own breaker), a "
+                    "breaker's window was touched by a call on another one, or a rejection without the window being over the limit")
         if case.get("w"):
             return ("a wrapper in front of the breaker (%s) did not resolve the promise exactly once as its acceptability "
                     "table says, ran the downstream of a rejected call, or showed the caller something else than "
